@@ -21,6 +21,8 @@ mod c14;
 mod refm;
 mod c15;
 mod c16;
+mod c17;
+mod c20;
 
 use common::{Ctx, Tier};
 
@@ -62,6 +64,8 @@ fn main() {
         ("C14", c14::run),
         ("C15", c15::run),
         ("C16", c16::run),
+        ("C17", c17::run),
+        ("C20", c20::run),
     ];
     let code = match checks.iter().find(|c| c.0 == id) {
         Some((name, f)) => f(&Ctx::new(name, tier)),
